@@ -22,7 +22,14 @@ import (
 // ---------------------------------------------------------------------------------------------
 
 // parse is the same call FormatBucket makes: first error aborts.
-func parse(name, text string) (*ast.FileNode, error) {
+// A panic inside protocompile's parser (seen for some incomplete productions, e.g. "semicolon is
+// nil") is not buf's: the text counts as not parseable.
+func parse(name, text string) (file *ast.FileNode, err error) {
+	defer func() {
+		if p := recover(); p != nil {
+			file, err = nil, fmt.Errorf("parser panic: %v", p)
+		}
+	}()
 	return parser.Parse(name, strings.NewReader(text), reporter.NewHandler(nil))
 }
 
